@@ -94,6 +94,10 @@ class ScriptedRNG(np.random.RandomState):
 
     def permutation(self, x):
         self.log.append(("permutation", int(x) if np.isscalar(x) else len(x)))
+        want = int(x) if np.isscalar(x) else len(x)
+        if not self.off and self.pos < len(self.script) and self.script[self.pos][0] == "perm" \
+                and len(self.script[self.pos][1]) != want:
+            self.off = "permutation of %d wanted, script holds %d" % (want, len(self.script[self.pos][1]))
         it = self._next(("perm",), "permutation")
         if it is None:
             return super().permutation(x)
